@@ -6,7 +6,7 @@ from common import hx
 import schemes_env as se
 import schemes_rec as sr
 
-MODELLED = ["PiBas", "PiPack"]
+MODELLED = ["PiBas", "PiPack", "PiPtr", "CT14", "ANSS16", "SSE2"]
 
 
 def _tbl(d):
@@ -17,7 +17,21 @@ def _hxl(l):
     return ",".join(hx(x) for x in l) if l else "."
 
 
+def _cells(a):
+    return ",".join("N" if x is None else hx(x) for x in a) if a else "."
+
+
+def _i2b(x):
+    return x.to_bytes((x.bit_length() + 7) // 8, "big")
+
+
 ADAPT = {
+    "SSE2": dict(key=lambda k: [k.K1, k.K2], edb=lambda e: "I " + (",".join(f"{k}:{hx(v)}" for k, v in e.I.items()) if e.I else "."),
+                 token=lambda t: [_i2b(x) for x in t.t]),
+    "ANSS16": dict(key=lambda k: [k.K], edb=lambda e: "S " + _tbl(e.HT_S) + " | L " + " | ".join(_tbl(t) for t in e.HT_L_list),
+                   token=lambda t: [t.li, t.Ki, t.li_prime, t.Ki_prime]),
+    "CT14": dict(key=lambda k: [k.K], edb=lambda e: "HT " + " | ".join(_tbl(t) for t in e.HT_list), token=lambda t: [t.K0, t.K1]),
+    "PiPtr": dict(key=lambda k: [k.K], edb=lambda e: "D " + _tbl(e.D) + " | A " + _cells(e.A), token=lambda t: [t.K1, t.K2]),
     "PiBas": dict(key=lambda k: [k.K], edb=lambda e: "D " + _tbl(e.D), token=lambda t: [t.K1, t.K2]),
     "PiPack": dict(key=lambda k: [k.K], edb=lambda e: "D " + _tbl(e.D), token=lambda t: [t.K1, t.K2]),
 }
